@@ -27,13 +27,14 @@ where
     T: BlockType + NumZero,
 {
     let n_blocks = {
-        let bits = mem::size_of::<T>()
+        let block_bits = mem::size_of::<T>()
             .checked_mul(8)
-            .expect("Table size too large")
+            .expect("Table size too large");
+        let bits = element_bits
             .checked_mul(len)
             .expect("Table size too large");
-        let blocks = bits / element_bits;
-        let res = bits % element_bits;
+        let blocks = bits / block_bits;
+        let res = bits % block_bits;
         if res != 0 {
             blocks + 1
         } else {
